@@ -17,6 +17,17 @@ mod unification;
 pub(crate) use unification::Relation;
 use unification::{Error as UnificationError, unify_types};
 
+/// The entries of a map keyed by `Symbol`, ordered by the text of their keys.
+/// The iteration order of a `HashMap` changes from process to process and the order of `Symbol`
+/// ids depends on what was interned before, so neither may decide the order of diagnostics or
+/// which of two competing entries wins.
+fn sorted_by_name<V>(map: &HashMap<Symbol, V>) -> Vec<(Symbol, &V)> {
+    map.iter()
+        .map(|(name, value)| (*name, value))
+        .sorted_by(|(a, _), (b, _)| a.as_str().cmp(b.as_str()))
+        .collect()
+}
+
 #[derive(Clone, Debug, Error)]
 #[error("Type Inference Error")]
 pub enum Error {
@@ -757,7 +768,12 @@ impl InferContext {
         let mut sum_types: std::collections::HashMap<Symbol, TypeNodeId> =
             std::collections::HashMap::new();
 
-        for (type_name, decl_info) in type_declarations {
+        // Visit the declarations in the order of their names: when two declarations share a
+        // constructor name the one visited last owns it, and the diagnostics below are reported
+        // in visiting order. Neither may depend on the iteration order of the hash map.
+        let sorted_declarations = sorted_by_name(type_declarations);
+
+        for (type_name, decl_info) in &sorted_declarations {
             let variants = &decl_info.variants;
             let variant_data: Vec<(Symbol, Option<TypeNodeId>)> =
                 variants.iter().map(|v| (v.name, v.payload)).collect();
@@ -775,7 +791,7 @@ impl InferContext {
         }
 
         // Second pass: For recursive types, wrap self-references in Boxed
-        for (type_name, decl_info) in type_declarations {
+        for (type_name, decl_info) in &sorted_declarations {
             if !decl_info.is_recursive {
                 continue;
             }
@@ -819,7 +835,7 @@ impl InferContext {
         }
 
         // Register constructors for non-recursive types
-        for (type_name, decl_info) in type_declarations {
+        for (type_name, decl_info) in &sorted_declarations {
             if decl_info.is_recursive {
                 continue;
             }
@@ -840,7 +856,7 @@ impl InferContext {
         }
 
         // Check for recursive type declarations (not allowed without 'rec' keyword)
-        self.check_type_declaration_recursion(type_declarations);
+        self.check_type_declaration_recursion(&sorted_declarations);
     }
 
     /// Wrap direct self-references in Boxed type for recursive type declarations
@@ -893,7 +909,7 @@ impl InferContext {
     /// Recursion is only allowed when the `rec` keyword is used
     fn check_type_declaration_recursion(
         &mut self,
-        type_declarations: &crate::ast::program::TypeDeclarationMap,
+        type_declarations: &[(Symbol, &crate::ast::program::TypeDeclInfo)],
     ) {
         for (type_name, decl_info) in type_declarations {
             // Skip the recursion check for types declared with `type rec`
